@@ -1686,13 +1686,27 @@ def evolution_without_effect_never_recorded(case, outcome, atoms):
                 noop.add((s_['app'], s_['label']))
         except Exception:
             continue
-    if not noop:
-        return atoms
+    import re
+
+    def app_models(sp, app):
+        return json.dumps((sp['apps'].get(app) or {}).get('models'), sort_keys=True)
     out = []
     for a in atoms:
-        if a[0] == 'labels_differ' and not a[3] and a[2] and \
-                all(tuple(x) in noop for x in a[2]):
-            continue
+        if a[0] == 'labels_differ' and not a[3] and a[2]:
+            # ... or whose app, seen from the version the upgrade starts at, ends up exactly
+            # where it was (a model added and deleted again in between)
+            m_ = re.match(r'[a-z_]+?(\d+)$', str(a[1]))
+            k = int(m_.group(1)) if m_ else None
+            ok = True
+            for x in a[2]:
+                if tuple(x) in noop:
+                    continue
+                if k is not None and k < len(vers) and \
+                        app_models(vers[k]['spec'], x[0]) == app_models(vers[-1]['spec'], x[0]):
+                    continue
+                ok = False
+            if ok:
+                continue
         out.append(a)
     return out
 
